@@ -747,3 +747,36 @@ bk_harness! {
     #[kani::stub(crate::portfolio::bookkeeping::superficial_loss::get_superficial_loss_ratio, spec_scan)]
     fn c03_emit_seller_sold_out() { emit_rows(4, 3, 6, 5, 6, 2); }        // hd = 0, hb = 3
 }
+
+
+// ---- C16 / C01 at pipeline level: txs_to_delta_list on ONE row by affiliate
+// "b" with an opening position of the default affiliate: the opening shares
+// count in the all-affiliate total seen by every affiliate, exactly as an
+// opening purchase by the default affiliate would.
+bk_harness! {
+    #[kani::unwind(5)]
+    #[kani::stub(get_delta_superficial_loss_info, cut_sfl_unreachable)]
+    fn c16_pipeline_opening_position_seen_by_other_affiliate() {
+        let n0 = any_in(1, N_MAX); let acb0 = any_in(0, ACB_MAX);
+        let x = any_in(1, N_MAX); let price = any_in(0, PRICE_MAX);
+        let init = status(gez(n0, 0), gez(n0, 0), Some(gez(acb0, 2)));
+        let txs = vec![tx(aff(1), date(50), 0, buy(pos(x, 0), gez(price, 2), gez(0, 0), cad(), None))];
+        let res = txs_to_delta_list(&txs, Some(init));
+        vcover!("pipeline ran");
+        match &res.0 {
+            Ok(deltas) => {
+                assert!(deltas.len() == 1);
+                let d = &deltas[0];
+                // b starts from nothing, but the security already has n0 shares in total
+                assert!(*d.pre_status.share_balance == dec(0, 0));
+                assert!(*d.pre_status.all_affiliate_share_balance == dec(n0, 0));
+                assert!(*d.post_status.share_balance == dec(x, 0));
+                assert!(*d.post_status.all_affiliate_share_balance == dec(n0, 0) + dec(x, 0));
+                assert!(*d.post_status.total_acb.unwrap() == dec(0, 0) + (dec(price, 2) * dec(x, 0) * dec(1, 0) + dec(0, 0) * dec(1, 0)));
+                assert!(d.capital_gain.is_none());
+            }
+            Err(_) => assert!(false, "a purchase is never rejected"),
+        }
+        core::mem::forget(res); core::mem::forget(txs);
+    }
+}
